@@ -44,3 +44,5 @@ package mathx
 //@   property C06
 //@   float real
 //@   ensures devOf(result) == min(max(deviation, 0.0), 1.0)
+//@   modifies nothing
+//@   allocates
